@@ -127,7 +127,16 @@ FULL_PIPES = [
     (4, [None, 0, 1, 0], ["Weibull", "LogNormal", "Normal", "LogNormal"]),
     (2, [None, None], ["Weibull", "ScipyGammaAllFixed"]),
     (3, [None, 0, None], ["ExpWeibull", "LogNormal", "ScipyGammaAllFixed"]),
+    # the same structures with the slicer kinds rotated, so that every kind sits on a conditioning dimension
+    (2, [None, 0], ["Weibull", "LogNormal"]),
+    (3, [None, 0, 1], ["Weibull", "LogNormal", "Normal"]),
 ]
+FULL_VARIANT = {11: 2, 12: 1}  # index in FULL_PIPES -> rotation of (width, number, points) over the dimensions
+
+
+def full_pipe(bi):
+    n, cond, carriers = FULL_PIPES[bi]
+    return base_pipeline(n, cond, carriers, "full", FULL_VARIANT.get(bi, 0))
 
 
 # --------------------------------------------------------------------------
@@ -201,6 +210,7 @@ FULL_FAULTS = {
     "too-few-intervals": ("S2", "conddim-slicer"),
     # exactly one interval fewer than demanded; with one interval dropped for having too few points
     "too-few-intervals/one-short": ("S2", "conddim-slicer"),
+    "too-few-intervals/one-short-points-slicer": ("S2", "conddim-slicer"),
     "fitdesc-empty-list": ("S2", "global"),
     "fitdesc-empty-tuple": ("S2", "global"),
     "fitdesc-one-entry-short": ("S2", "global"),
@@ -258,6 +268,8 @@ def seq_cases():
             if a == "unknown-weight-keyword@ew" and "ExpWeibull" not in carriers:
                 continue
             for b in SEQ_SECOND:
+                if b == "too-few-intervals-data" and any(full_pipe(bi)["dims"][j]["slicer"]["kind"] == "points" for j in _conditioning_dims(full_pipe(bi))):
+                    continue  # intervals of equal *counts* do not get fewer when the values coincide
                 out.append({"kind": "seq", "base": bi, "faults": [{"cls": a, "pos": None}, {"cls": b, "pos": None}]})
     return out
 
@@ -272,7 +284,7 @@ def all_single_cases():
                 for fam in FAMILY_NAMES:
                     cases.append({"kind": "desc", "n": n, "cond": cond, "carrier": fam, "faults": [{"cls": cls, "pos": pos}]})
     for bi, (n, cond, carriers) in enumerate(FULL_PIPES):
-        probe = base_pipeline(n, cond, carriers, "full")
+        probe = full_pipe(bi)
         for cls in FULL_FAULTS:
             for pos in applicable(probe, cls):
                 cases.append({"kind": "full", "base": bi, "faults": [{"cls": cls, "pos": pos}]})
@@ -318,7 +330,7 @@ def generate(prop, seed, tier):
         else:
             bi = S.int(0, len(FULL_PIPES) - 1)
             n, cond, carriers = FULL_PIPES[bi]
-            probe = base_pipeline(n, cond, carriers, "full")
+            probe = full_pipe(bi)
             table = FULL_FAULTS
             c = {"kind": "full", "base": bi}
         cl = [k for k in table if applicable(probe, k)]
@@ -365,8 +377,7 @@ def _pipe_of(scen):
         if all(f["pos"] is None for f in scen["faults"]):
             carriers[-1] = scen["carrier"]
         return base_pipeline(n, cond, carriers, "desc")
-    n, cond, carriers = FULL_PIPES[scen["base"]]
-    return base_pipeline(n, cond, carriers, "full")
+    return full_pipe(scen["base"])
 
 
 def run_sequence(pipe, faults):
@@ -558,9 +569,11 @@ def run_pipeline(pipe, faults, run=None):
                     # NumberOfIntervalsSlicer lowers min_n_intervals to n_intervals;
                     # ask for more points per interval than any interval holds instead
                     spec["min_n_points"] = 10**6
-            if has("too-few-intervals/one-short", i):
+            if has("too-few-intervals/one-short", i) or has("too-few-intervals/one-short-points-slicer", i):
                 # an interval slicer that keeps k intervals (after dropping one that holds fewer than
                 # min_n_points observations) is asked for k + 1
+                if has("too-few-intervals/one-short-points-slicer", i):
+                    spec["kind"] = "points"  # the base pipelines put width / number slicers on the conditioning dimensions
                 if spec["kind"] == "number":
                     spec["kind"] = "width"  # NumberOfIntervalsSlicer lowers min_n_intervals to n_intervals
                 if spec["kind"] == "points":
